@@ -47,3 +47,92 @@ def sreg_name(facts, t):
         ev = facts.enum_variant("state::registers::SupportedRegister", t[2])
         return ev[0] if ev else None
     return None
+
+
+def eval_static(facts, static_path):
+    """Interpret a lazy_static initialiser of any shape with concrete collections (HashMap / HashSet / Vec built by new +
+    insert / push, `from([..])`, or `collect()` of an iterator chain over literal arrays). Returns ('map', [(k, v), ..]),
+    ('set', [..]) or ('list', [..]); raises KeyError when the initialiser leaves the concrete domain."""
+    init = static_path_init(facts, static_path)
+    body = facts.bodies[init]
+
+    def kind_of(txt):
+        if "HashMap" in txt or "BTreeMap" in txt:
+            return "map"
+        if "HashSet" in txt or "BTreeSet" in txt:
+            return "set"
+        if "Vec" in txt:
+            return "list"
+        return None
+
+    def add(cur, k, elems):
+        kind, items = cur[1], list(cur[2])
+        for e in elems:
+            if kind == "map":
+                if not (e[0] == "agg" and len(e[3]) == 2):
+                    raise KeyError("map element of %s is not a pair: %s" % (static_path, A.show(e)[:60]))
+                items = [x for x in items if x[3][0] != e[3][0]] + [e]
+            elif kind == "set":
+                if e not in items:
+                    items.append(e)
+            else:
+                items.append(e)
+        return ("ccoll", kind, tuple(items))
+
+    def icpt(I, path, frame, t, name, args):
+        short = name.rsplit("::", 1)[1].split("::<")[0] if "::" in name else name
+        g = " ".join(t["f"].get("gargs", []))
+        k = kind_of(name.split("::<")[0] if short not in ("from", "collect", "from_iter") else name + " " + g)
+        if short in ("new", "with_capacity", "default", "with_capacity_and_hasher") and kind_of(name):
+            return [(("ccoll", kind_of(name), ()), path)]
+        if short in ("from", "from_iter") and k and len(args) == 1:
+            src = I._deref_all(path, args[0])
+            elems = src[3] if src[0] == "agg" and src[1] == "array" else src[1] if src[0] == "citer" else None
+            if elems is not None:
+                return [(add(("ccoll", k, ()), k, [I._deref_all(path, e, 1) if e[0] == "ref" else e for e in elems]), path)]
+        if short == "collect" and len(args) == 1:
+            src = I._deref_all(path, args[0])
+            kk = kind_of(g.split(",")[-1]) or kind_of(g)
+            if src[0] == "citer" and kk:
+                return [(add(("ccoll", kk, ()), kk, list(src[1])), path)]
+        if short in ("insert", "push") and args and args[0][0] == "ref":
+            cur = I.read_loc(path, args[0][1])
+            if cur[0] == "ccoll":
+                el = ("agg", "tuple", None, (args[1], args[2])) if cur[1] == "map" and len(args) == 3 else args[1]
+                I.write_loc(path, args[0][1], add(cur, cur[1], [el]))
+                return [(("ret", "insert-old", (), len(path.events)), path)]
+        if short in ("len",) and args:
+            cur = I._deref_all(path, args[0])
+            if cur[0] == "ccoll":
+                return [(A.INT(len(cur[2]), 64), path)]
+        if short in ("iter", "into_iter") and args:
+            cur = I._deref_all(path, args[0])
+            if cur[0] == "ccoll" and cur[1] != "map":
+                return [(("citer", cur[2]), path)]
+        return None
+    I = A.Interp(facts, intercept=icpt, max_paths=2000)
+    I.concrete_ranges = True
+    outs = [o for o in I.run(body, [], A.Path())]
+    rets = [o for o in outs if o.kind == "return"]
+    if len(outs) != 1 or len(rets) != 1:
+        raise KeyError("initialiser of %s does not evaluate to one value (%d outcomes)" % (static_path, len(outs)))
+    v = I._deref_all(rets[0].path, rets[0].value)
+    if v[0] != "ccoll" or not all(A.ground(e) for e in v[2]):
+        raise KeyError("initialiser of %s leaves the concrete domain: %s" % (static_path, A.show(v)[:80]))
+    if v[1] == "map":
+        return ("map", [(e[3][0], e[3][1]) for e in v[2]])
+    return (v[1], list(v[2]))
+
+
+def static_items(facts, static_path):
+    """elements of a lazy_static table, by whichever evaluator applies: list of terms (map entries as 2-tuples aggregates)"""
+    try:
+        return static_elements(facts, static_path)
+    except KeyError as e1:
+        try:
+            kind, items = eval_static(facts, static_path)
+        except KeyError as e2:
+            raise KeyError("%s; %s" % (e1, e2))
+        if kind == "map":
+            return [("agg", "tuple", None, (k, v)) for k, v in items]
+        return items
